@@ -16,6 +16,12 @@ if sys.argv[2] in ('--round2', '--round3', '--round4', '--round5'):
             p = '/tmp/seed/out%d_c%02d/%d/patch.diff' % (rnd, n, k)
             if os.path.exists(p):
                 jobs.append(('C%02d' % n, p, 'C%02d-s%d' % (n, k + 3 * (rnd - 1))))
+elif sys.argv[2] == '--round7':
+    for n in range(1, 21):
+        for k in (1, 2, 3):
+            p = '/tmp/seed7/C%02d/out/%d/patch.diff' % (n, k)
+            if os.path.exists(p):
+                jobs.append(('C%02d' % n, p, 'C%02d-s%d' % (n, k + 15)))
 else:
     a = sys.argv[2:]
     jobs = [tuple(a[i:i + 3]) for i in range(0, len(a), 3)]
